@@ -54,6 +54,10 @@ def gen_rt(seed, tier="quick"):
         if rng.random() < 0.7:
             beh["durations"], scn["rt"]["instant"] = [0], True
         scn["rt"]["external"] = ext
+        if scn.get("order"):
+            # (the family may have fixed a start order: the added simulators are started after the others - found by the request-
+            # protocol layer: Sx was in the scenario record but never started, its external events were never injected)
+            scn["order"] = list(scn["order"]) + [x["sid"] for x in scn["sims"] if x["sid"] not in scn["order"]]
         scn["until"] = max(scn["until"], min(tprev + rng.choice([0, 1, 2]), 8))
         beh.setdefault("no_self_steps", ["Sx"])
         scn = S.normalize(scn)
